@@ -231,4 +231,102 @@ example : (({} : Node).run
      .persistFail, .restoreLatest, cmd 4 40, .snapshot 620000000035, .persist, .restart]).live = [1, 2, 3, 4] := by
   decide
 
+/-! ## non-vacuity -/
+
+namespace Ex
+
+/-- a schedule exercising every kind of step, with timestamps in ns: entry 3 lowers the session
+expiration to 300 s (so the horizon is `now − 310 s`), entry 5 is raft-internal; the first snapshot
+folds 1–3 and retains 4; the second one is computed but its write fails; the node then installs the
+first snapshot again, snapshots a third time (folding 4 and 6, retaining 7), persists, restarts, and
+commits entry 8 -/
+def sched2 : List Op :=
+  [cmd 1 10000000000, cmd 2 20000000000, .commit ⟨3, 25000000000, true, some 300000000000⟩,
+   cmd 4 400000000000,
+   .snapshot 420000000000, .persist,
+   .commit ⟨5, 450000000000, false, none⟩, cmd 6 500000000000,
+   .snapshot 720000000000, .persistFail, .restoreLatest,
+   cmd 7 600000000000,
+   .snapshot 830000000000, .persist, .restart,
+   cmd 8 700000000000]
+
+theorem wf2 : WfOps sched2 := ⟨by decide, by decide⟩
+
+/-- the end state is populated: a non-empty log copy and output store, two persisted snapshots with
+non-empty state and retained entries, and a non-default expiration -/
+example : (({} : Node).run sched2).live = [1, 2, 3, 4, 6, 7, 8] ∧
+    (({} : Node).run sched2).irc.map (·.idx) = [7, 8] ∧ (({} : Node).run sched2).out = [7, 8] ∧
+    (({} : Node).run sched2).exp = 300000000000 ∧
+    (({} : Node).run sched2).persisted.map (fun s => (s.index, s.stateIdx, s.state, s.stateExp, s.retained.map (·.idx))) =
+      [(7, 6, [1, 2, 3, 4, 6], 300000000000, [7]), (4, 3, [1, 2, 3], 300000000000, [4])] := by decide
+
+example : (({} : Node).run sched2).raftlog = commits sched2 ∧
+    (({} : Node).run sched2).live = replayLive (commits sched2) ∧
+    (({} : Node).run sched2).exp = replayExp (commits sched2) := C02_state_eq_replay sched2 wf2
+
+/-- the older persisted snapshot: state `[1,2,3]`, retained entry 4 -/
+def snapA : Snap := ⟨4, 3, [1, 2, 3], 300000000000, [⟨4, 400000000000, true, none⟩]⟩
+/-- the newer one: state `[1,2,3,4,6]` (entry 5 is not a command), retained entry 7 -/
+def snapB : Snap := ⟨7, 6, [1, 2, 3, 4, 6], 300000000000, [⟨7, 600000000000, true, none⟩]⟩
+
+theorem memA : snapA ∈ (({} : Node).run sched2).persisted := by decide
+theorem memB : snapB ∈ (({} : Node).run sched2).persisted := by decide
+
+example : snapA.state ++ replayLive snapA.retained = replayLive ((commits sched2).filter (fun e => e.idx ≤ snapA.index)) :=
+  C02_snapshot_complete sched2 wf2 snapA memA
+example : snapB.state ++ replayLive snapB.retained = [1, 2, 3, 4, 6, 7] :=
+  (C02_snapshot_complete sched2 wf2 snapB memB).trans (by decide)
+
+example : expOf snapB.retained snapB.stateExp = replayExp ((commits sched2).filter (fun e => e.idx ≤ snapB.index)) ∧
+    snapB.stateIdx ≤ snapB.index ∧
+    snapB.retained = (commits sched2).filter (fun e => e.isCmd && decide (snapB.stateIdx < e.idx ∧ e.idx ≤ snapB.index)) :=
+  C02_snapshot_complete_exp sched2 wf2 snapB memB
+/-- … and the expiration it carries is the non-default one set by entry 3 -/
+example : replayExp ((commits sched2).filter (fun e => e.idx ≤ snapB.index)) = 300000000000 := by decide
+
+example : (∀ i, i ∈ (({} : Node).run sched2).out ↔ i ∈ (({} : Node).run sched2).irc.map (·.idx)) ∧
+    ∃ folded, folded ++ (({} : Node).run sched2).irc.map (·.idx) = (({} : Node).run sched2).live ∧
+      ((({} : Node).run sched2).irc = [] ∨ ∀ i ∈ folded, ∀ e ∈ (({} : Node).run sched2).irc, i < e.idx) :=
+  C02_unfolded_kept sched2 wf2
+
+example : ∃ b, (({} : Node).run sched2).irc = (commits sched2).filter (fun e => e.isCmd && decide (b < e.idx)) ∧
+    replayLive ((commits sched2).filter (fun e => e.idx ≤ b)) ++ (({} : Node).run sched2).irc.map (·.idx) =
+      (({} : Node).run sched2).live :=
+  C02_unfolded_exact sched2 wf2
+/-- the boundary is 6 here -/
+example : (({} : Node).run sched2).irc = (commits sched2).filter (fun e => e.isCmd && decide (6 < e.idx)) ∧
+    replayLive ((commits sched2).filter (fun e => e.idx ≤ 6)) = [1, 2, 3, 4, 6] := by decide
+
+/-! one snapshot step: the node after the first four commits (log copy 1–4, expiration 300 s),
+snapshotting at `now = 420 s`: horizon 110 s, entries 1–3 are folded, entry 4 stays -/
+
+def nA : Node := ({} : Node).run (sched2.take 4)
+def nowA : Int := 420000000000
+def nA' : Node := (nA.snapshot nowA).getD nA
+def e2 : LogEntry := ⟨2, 20000000000, true, none⟩
+def e4 : LogEntry := ⟨4, 400000000000, true, none⟩
+
+theorem snapA_some : nA.snapshot nowA = some nA' := rfl
+
+example : nA.irc.map (·.idx) = [1, 2, 3, 4] ∧ nA.out = [1, 2, 3, 4] ∧ nA.exp = 300000000000 ∧
+    nA'.irc.map (·.idx) = [4] ∧ nA'.out = [4] := by decide
+
+example : e2.ts ≤ nowA - ((if nA.exp = 0 then 600000000000 else nA.exp) + expireSessionsInterval) :=
+  C02_horizon nA nA' nowA snapA_some e2 (by decide) (by decide)
+
+example : e4 ∈ nA'.irc :=
+  C02_recent_kept_irc nA nA' nowA snapA_some e4 (by decide) (by decide)
+
+example : e4 ∈ nA'.irc ∧ (e4.idx ∈ nA.out → e4.idx ∈ nA'.out) :=
+  C02_recent_kept nA nA' nowA snapA_some e4 (by decide) (by decide) (by decide)
+
+/-- the premise of the inner implication holds too -/
+example : e4.idx ∈ nA.out := by decide
+
+example : e4 ∈ nA'.irc ∧ (e4.idx ∈ (({} : Node).run (sched2.take 4)).out → e4.idx ∈ nA'.out) :=
+  C02_recent_kept_reachable (sched2.take 4) ⟨by decide, by decide⟩ nA' nowA snapA_some e4
+    (by decide) (by decide)
+
+end Ex
+
 end Robust.Props.C02
